@@ -386,3 +386,85 @@ pub fn cpu_ms() -> u64 {
     }
     0
 }
+
+/// positions of the length headers (byte/text strings, arrays, maps) of a well-formed CBOR item
+/// sequence: (offset, major type, header size in bytes, length)
+pub fn cbor_headers(b: &[u8]) -> Vec<(usize, u8, usize, u64)> {
+    let mut out = Vec::new();
+    let mut pos = 0usize;
+    // explicit stack of "items still to read" so that deep nesting cannot overflow our own stack
+    let mut todo: Vec<u64> = vec![1];
+    while let Some(n) = todo.pop() {
+        if n == 0 {
+            continue;
+        }
+        todo.push(n - 1);
+        if pos >= b.len() {
+            break;
+        }
+        let ib = b[pos];
+        let major = ib >> 5;
+        let ai = ib & 31;
+        let (arg, hdr) = match ai {
+            0..=23 => (ai as u64, 1usize),
+            24 if pos + 1 < b.len() => (b[pos + 1] as u64, 2),
+            25 if pos + 2 < b.len() => (u16::from_be_bytes([b[pos + 1], b[pos + 2]]) as u64, 3),
+            26 if pos + 4 < b.len() => (u32::from_be_bytes([b[pos + 1], b[pos + 2], b[pos + 3], b[pos + 4]]) as u64, 5),
+            27 if pos + 8 < b.len() => {
+                let mut x = [0u8; 8];
+                x.copy_from_slice(&b[pos + 1..pos + 9]);
+                (u64::from_be_bytes(x), 9)
+            }
+            _ => break, // indefinite or truncated: the library does not write these
+        };
+        match major {
+            0 | 1 | 7 => pos += hdr,
+            2 | 3 => {
+                out.push((pos, major, hdr, arg));
+                pos += hdr + arg as usize;
+            }
+            4 => {
+                out.push((pos, major, hdr, arg));
+                pos += hdr;
+                todo.push(arg);
+            }
+            5 => {
+                out.push((pos, major, hdr, arg));
+                pos += hdr;
+                todo.push(arg.saturating_mul(2));
+            }
+            _ => {
+                // tag: one item follows
+                pos += hdr;
+                todo.push(1);
+            }
+        }
+    }
+    out
+}
+
+/// a CBOR header of the given major type whose argument is `v`, in the form that takes `size`
+/// additional bytes (0 = inside the initial byte, 1, 2, 4, 8) or of indefinite length (size 99)
+pub fn cbor_header(major: u8, v: u64, size: usize) -> Vec<u8> {
+    let m = major << 5;
+    match size {
+        0 => vec![m | (v.min(23) as u8)],
+        1 => vec![m | 24, v as u8],
+        2 => {
+            let mut o = vec![m | 25];
+            o.extend_from_slice(&(v as u16).to_be_bytes());
+            o
+        }
+        4 => {
+            let mut o = vec![m | 26];
+            o.extend_from_slice(&(v as u32).to_be_bytes());
+            o
+        }
+        8 => {
+            let mut o = vec![m | 27];
+            o.extend_from_slice(&v.to_be_bytes());
+            o
+        }
+        _ => vec![m | 31],
+    }
+}
